@@ -166,5 +166,16 @@ class C18(Prop):
         da, db = mk(g["a"], 0), mk(g["b"], 1)
         ra, rb = da.head.get_html_string(), db.head.get_html_string()
         doc = H.HTMLDocument(H.tags.div(da, "x", H.tags.span(db))).render()
+        # the same through the json path: three fragments rendered separately (A, something else, B), concatenated and
+        # post-processed as one document
+        other = H.HTMLDependency("between", "1.0", script={"src": "b.js"})
+        old = H.html_dependency_render_mode
+        try:
+            H.html_dependency_render_mode = "json"
+            frags = [str(H.tags.div(da, "a")), str(H.tags.p(other)), str(H.tags.div("b", db))]
+        finally:
+            H.html_dependency_render_mode = old
+        tdoc = H.HTMLTextDocument("<html><head>PH</head><body>" + "".join(frags) + "</body></html>", deps_replace_pattern="PH").render()
         return {"k": "pair", "nameA": da.name, "nameB": db.name, "sameContent": ra == rb,
-                "countInDoc": len([d for d in doc["dependencies"] if d.name.startswith("headcontent_")]), "gen": g}
+                "countInDoc": len([d for d in doc["dependencies"] if d.name.startswith("headcontent_")]),
+                "countInText": len([d for d in tdoc["dependencies"] if d.name.startswith("headcontent_")]), "gen": g}
